@@ -263,6 +263,22 @@ def run_cases(ctx, binary, catalog_path, allcases, quick, rng, vacuity):
             ctx.violation(key, what, {"schema": c["schema"], "base": c["base"], "kind": c["kind"], "doc": c["doc"], "vars": c["vars"],
                                       "text": r["text"], "variables": r["vars"], "observed": {k: r[k] for k in ("accept", "stage", "msg", "panic")},
                                       "expected_valid": c["expected"], "violated_rules": bad[cid]["failed"], "tokens": bad[cid]["tokens"]})
+    # Go-side equalities (no oracle): the verdict of the validate stage must not depend on what a long-lived validator saw before,
+    # nor on an earlier ValidateForSchema call with other options on the same request
+    for r in results.values():
+        c = by_id[r["id"]]
+        if r["stage"] in ("normalize", "panic"):
+            continue
+        fresh = "accept" if r["accept"] else "reject"
+        for field, key in (("reused", "verdict-depends-on-validator-history"), ("afteropts", "verdict-depends-on-earlier-options")):
+            other = r.get(field, "skip")
+            if other not in ("skip", fresh):
+                k = "%s:%s-instead-of-%s" % (key, other.split(":")[0], fresh)
+                nviol[k] += 1
+                ctx.violation(k, "the default-options verdict of the validate stage is '%s' on a fresh validator/request but '%s' %s\n%s" % (
+                    fresh, other, "on a validator that validated the preceding documents" if field == "reused" else
+                    "after ValidateForSchema was called with relaxed options on the same request", r["text"]),
+                    {"schema": c["schema"], "base": c["base"], "kind": c["kind"], "doc": c["doc"], "vars": c["vars"], "text": r["text"]})
     for r in results.values():
         if r["panic"]:
             c = by_id[r["id"]]
